@@ -56,11 +56,11 @@ func newEnv(dir string) (*env, error) {
 // inst is one prepared run of a shape: the connection under test wraps the end
 // the operation under test uses; the other end belongs to a real cedar peer.
 type inst struct {
-	conn    *wire.StallConn
-	op      func(ctx context.Context) error // the call under test
-	peer    func(ctx context.Context) error // the real cedar peer
-	closeLink func() // closes both ends (the peer's blocked I/O then fails)
-	cleanup   func() // after the peer has ended: leftovers, sessions, listener
+	conn      *wire.StallConn
+	op        func(ctx context.Context) error // the call under test
+	peer      func(ctx context.Context) error // the real cedar peer
+	closeLink func()                          // closes both ends (the peer's blocked I/O then fails)
+	cleanup   func()                          // after the peer has ended: leftovers, sessions, listener
 }
 
 type shape struct {
